@@ -608,10 +608,49 @@ def _stmt_lines(filename):
     return out
 
 
+def resolve_anchor(anchor):
+    """anchor = (file, first, last) | (file, 'Class.func' or 'func') | (file, qualname, marker).
+    Function-based anchors survive line shifts caused by repository commits. With a marker the
+    region starts at the first line of the function that contains the marker text."""
+    import ast
+    import os
+
+    if len(anchor) == 3 and isinstance(anchor[1], int):
+        return anchor[0], anchor[1], anchor[2], f"{anchor[0]}:{anchor[1]}-{anchor[2]}"
+    suffix, qual = anchor[0], anchor[1]
+    marker = anchor[2] if len(anchor) > 2 else None
+    import gaussian_toolbox
+
+    path = os.path.join(os.path.dirname(gaussian_toolbox.__file__), suffix)
+    src = open(path).read()
+    tree = ast.parse(src)
+    parts = qual.split(".")
+    node = tree
+    for part in parts:
+        found = None
+        for ch in ast.iter_child_nodes(node):
+            if isinstance(ch, (ast.ClassDef, ast.FunctionDef)) and ch.name == part:
+                found = ch
+                break
+        if found is None:
+            return suffix, 0, -1, f"{suffix}:{qual} (not found)"
+        node = found
+    a, b = node.lineno, node.end_lineno
+    label = f"{suffix}:{qual}"
+    if marker:
+        lines = src.splitlines()
+        for ln in range(a, b + 1):
+            if marker in lines[ln - 1]:
+                a = ln
+                break
+        label += f"[{marker.strip()[:30]}..]"
+    return suffix, a, b, label
+
+
 def coverage_report(anchors):
-    """anchors: list of (file suffix, first, last). -> list of dicts."""
     out = []
-    for (suffix, a, b) in anchors:
+    for anchor in anchors:
+        suffix, a, b, label = resolve_anchor(tuple(anchor))
         execable, hit = set(), set()
         for fn in STATE.code_lines:
             if fn.endswith("/gaussian_toolbox/" + suffix):
@@ -619,8 +658,8 @@ def coverage_report(anchors):
         for (fn, l) in STATE.lines:
             if fn.endswith("/gaussian_toolbox/" + suffix) and a <= l <= b:
                 hit.add(l)
-        out.append({"file": suffix, "first": a, "last": b, "lines": sorted(execable),
-                    "hit": sorted(hit & execable)})
+        out.append({"label": label, "file": suffix, "first": a, "last": b,
+                    "lines": sorted(execable), "hit": sorted(hit & execable)})
     return out
 
 
